@@ -143,7 +143,7 @@ impl Property for C18 {
         let exprs = expr_options(&case.opts);
         let kind: &str;
         // choose a corruption; fall back to one that is always possible
-        let choice = rng.below(26);
+        let choice = rng.below(32);
         let fresh_position = |rng: &mut Rng, expr: &str| -> Vec<String> {
             match rng.below(6) {
                 0 => vec![format!("--filter={expr}")],
@@ -316,6 +316,68 @@ impl Property for C18 {
                 needs.push(o.last().unwrap().clone());
                 replace_or_add(&mut case, o);
                 kind = "dangling-index";
+            }
+            26 => {
+                // a duplicate --set whose second copy spells the same name with blanks around it
+                let name = format!("pdup{}", rng.below(10));
+                let mac = rng.chance(1, 3);
+                let at = if mac { "@" } else { "" };
+                let (v1, v2) = if mac { ("(+ . 1)", ".") } else { ("1", "2") };
+                let padded = match rng.below(3) {
+                    0 => format!("{at}{name} ={v1}"),
+                    1 => format!(" {at}{name}={v1}"),
+                    _ => format!("{at}{name}  ={v1}"),
+                };
+                let plain = format!("{at}{name}={v2}");
+                let seq = if rng.chance(1, 2) { vec![padded, plain] } else { vec![plain, padded] };
+                for v in &seq {
+                    case.opts.push(vec!["--set".into(), v.clone()]);
+                    needs.push(v.clone());
+                }
+                kind = "respelled-duplicate-set";
+            }
+            27 => {
+                // quote characters that a shell would have eaten: in front of or behind a
+                // complete call or literal
+                let e = *rng.pick(&["(> .n 0)", "(size .arr)", "(len .s)", "\"k\"", "5"]);
+                let q = *rng.pick(&["'", "''", "\"", "`"]);
+                let v = if rng.chance(1, 3) { format!("{q}{e}") } else { format!("{e}{q}") };
+                let o = fresh_position(rng, &v);
+                needs.push(o.last().unwrap().clone());
+                replace_or_add(&mut case, o);
+                kind = "stray-quote";
+            }
+            28 => {
+                // a path that goes on into a string that never ends
+                let e = *rng.pick(&[".s.\"first", ".\"o", ".obj.\"a\\", ".obj.a.\"", "(size .arr).\"x", ".arr#0.\"k"]);
+                let o = fresh_position(rng, e);
+                needs.push(o.last().unwrap().clone());
+                replace_or_add(&mut case, o);
+                kind = "unterminated-string-step";
+            }
+            29 => {
+                // a sort direction glued to a selection that ends by itself
+                let e = *rng.pick(&["(size .arr)", "\"k\"", "5", "(len .s)", "[1]"]);
+                let d = *rng.pick(&["DESC", "ASC", "asc", "desc", "==DESC"]);
+                let o = vec![format!("--sort-by={e}{d}")];
+                needs.push(o[0].clone());
+                case.opts.push(o);
+                kind = "glued-direction";
+            }
+            30 | 31 => {
+                // an index step no machine integer holds
+                let e = *rng.pick(&[
+                    ".arr#18446744073709551616",
+                    "#18446744073709551616",
+                    ".arr#99999999999999999999",
+                    ".obj.a#340282366920938463463374607431768211456",
+                    "^.arr#18446744073709551616",
+                    ".arr#0#18446744073709551617",
+                ]);
+                let o = fresh_position(rng, e);
+                needs.push(o.last().unwrap().clone());
+                replace_or_add(&mut case, o);
+                kind = "overflowing-index";
             }
             16 if !exprs.is_empty() => {
                 // truncation to nothing: the expression is cut to length zero
